@@ -1341,7 +1341,13 @@ output_init_function (FILE *output)
       fprintf(output, "\n");
       output_program_generation (programs[i], output, FALSE);
       fprintf(output, "\n");
-      fprintf(output, "    orc_program_compile (p);\n");
+      if (target) {
+        /* --target names the back end to compile for, here as well as in
+         * the lazily initialised functions */
+        fprintf(output, "    orc_program_compile_for_target (p, orc_target_get_by_name (\"%s\"));\n", target);
+      } else {
+        fprintf(output, "    orc_program_compile (p);\n");
+      }
       fprintf(output, "\n");
       if (use_code) {
         fprintf(output, "    _orc_code_%s = orc_program_take_code (p);\n",
